@@ -24,6 +24,7 @@
 #include <stdlib.h>
 #include <string.h>
 #include <sys/mman.h>
+#include <sys/resource.h>
 #include <sys/stat.h>
 #include <sys/types.h>
 #include <sys/uio.h>
@@ -155,6 +156,15 @@ static void logrec(uint32_t type, int64_t off, uint64_t len, uint64_t size_after
     memcpy(hdr + 24, &len, 8);
     memcpy(hdr + 32, &size_after, 8);
     memcpy(hdr + 40, &result, 8);
+    /* a file-size limit set by the program under test (RLIMIT_FSIZE fault injection) must not
+       cut the log short: lift the soft limit around the log write */
+    struct rlimit rl, saved;
+    int lifted = 0;
+    if (getrlimit(RLIMIT_FSIZE, &rl) == 0 && rl.rlim_cur != rl.rlim_max) {
+        saved = rl;
+        rl.rlim_cur = rl.rlim_max;
+        if (setrlimit(RLIMIT_FSIZE, &rl) == 0) lifted = 1;
+    }
     real_write(log_fd, hdr, sizeof(hdr));
     if (plen > 0 && payload) {
         const char *p = payload;
@@ -165,6 +175,7 @@ static void logrec(uint32_t type, int64_t off, uint64_t len, uint64_t size_after
             done += (uint64_t)w;
         }
     }
+    if (lifted) setrlimit(RLIMIT_FSIZE, &saved);
 }
 
 static void gate(const char *event) {
